@@ -3,6 +3,9 @@
 undo it, and write meta.json (what it breaks, what it needs, confirmation, which check caught it with what)."""
 import json, os, re, subprocess, sys, glob
 only = sys.argv[1:]
+# VERIF_RUN_HOME: run the checks out of a copy of /verif (own build directory, evidence and replays), so that
+# work in /verif itself can go on meanwhile; meta.json always goes to /verif/seeded
+RUN = os.environ.get('VERIF_RUN_HOME', '/verif')
 for d in sorted(glob.glob('/verif/seeded/*-m*')):
     name = os.path.basename(d)
     if only and name not in only: continue
@@ -20,9 +23,9 @@ for d in sorted(glob.glob('/verif/seeded/*-m*')):
     subprocess.run(['git', '-C', W, 'checkout', '-q', '--detach', head], check=True)
     subprocess.run(['git', '-C', W, 'apply', d + '/patch.diff'], check=True)
     env = dict(os.environ, VERIF_MIN_BUDGET_S='10', VERIF_REPO=W)
-    ev = f'/verif/evidence/{prop}.json'
+    ev = f'{RUN}/evidence/{prop}.json'
     saved = open(ev).read() if os.path.exists(ev) else None
-    p = subprocess.run(['./check', prop, 'quick'], cwd='/verif', capture_output=True, text=True, env=env)
+    p = subprocess.run(['./check', prop, 'quick'], cwd=RUN, capture_output=True, text=True, env=env)
     subprocess.run(['git', '-C', W, 'checkout', '-q', '--', '.'], check=True)
     if saved is not None: open(ev, 'w').write(saved)  # evidence files describe the unchanged tree
     sigs = re.findall(r'signature: (\S+) \((\d+) run', p.stdout)
@@ -41,4 +44,4 @@ for d in sorted(glob.glob('/verif/seeded/*-m*')):
     json.dump(meta, open(d + '/meta.json', 'w'), indent=1)
     print(name, prop, 'detected' if meta['detected'] else 'MISSED', dict(list(meta['detected_by']['signatures'].items())[:3]), flush=True)
     # replays produced for seeded changes are not findings on the real tree
-    for f in glob.glob('/verif/replays/*.json'): os.remove(f)
+    for f in glob.glob(f'{RUN}/replays/*.json'): os.remove(f)
